@@ -34,11 +34,12 @@ CONSTANTS
   PongPolicy,    \* "cancel_safe" (required) | "inline" (reply and packet live only in the dropped future)
   MaxErr, MaxPending, MaxCancel, MaxTimeout,
   MaxWrites, WLens,
+  Truncation,    \* BOOLEAN: the peer may die in the middle of a frame
   MaxQueued,     \* ws: messages the relay may have in flight (model bound)
   KeepHist,      \* FALSE in trace validation: the script of steps is not recorded
   FrameOK(_, _)  \* which (length, class) pairs the peer may produce (TRUE: any)
 
-AllClasses == {"ka", "tiny", "pkt", "bad", "ver9", "verX", "short"}
+AllClasses == {"ka", "tiny", "pkt", "bad", "ver9", "verX", "short"}     \* + "partial": only produced by PeerTruncated
 AllTransports == {"stream", "udp", "ws"}
 
 VARIABLES
@@ -100,6 +101,16 @@ PeerSend(n, c) ==
                  ELSE /\ wsq' = wsq \o FrameToks(Len(sent) + 1, n) /\ UNCHANGED net
   /\ Log(H("send", n, c))
   /\ UNCHANGED <<cfg, packed, eof, abuf, rbuf, roff, pc, pending, pongleft, wcur, wleft, wlen, nwrites, wafter,
+                 out, units, results, nerr, npend, ncancel, ntimeout>>
+
+\* the peer dies in the middle of a frame: only the first k < n bytes of it arrive, then the stream ends
+PeerTruncated(n, k) ==
+  /\ IsStream /\ ~eof /\ Len(sent) < MaxFrames /\ k \in 1..(n - 1)
+  /\ sent' = Append(sent, [len |-> n, cls |-> "partial"])
+  /\ net' = net \o SubSeq(FrameToks(Len(sent) + 1, n), 1, k)
+  /\ eof' = TRUE
+  /\ Log(H("sendp", n * 100 + k, "pkt"))
+  /\ UNCHANGED <<cfg, wsq, packed, abuf, rbuf, roff, pc, pending, pongleft, wcur, wleft, wlen, nwrites, wafter,
                  out, units, results, nerr, npend, ncancel, ntimeout>>
 
 \* a datagram carries one or more whole frames
@@ -373,6 +384,7 @@ DoPeerSend   == \E n \in Lens, c \in Classes : FrameOK(n, c) /\ PeerSend(n, c)
 DoPeerDgram1 == \E n \in Lens, c \in Classes : FrameOK(n, c) /\ PeerDgram(<<Frame(n, c)>>)
 DoPeerDgram2 == \E n1, n2 \in Lens, c1, c2 \in Classes :
                    FrameOK(n1, c1) /\ FrameOK(n2, c2) /\ PeerDgram(<<Frame(n1, c1), Frame(n2, c2)>>)
+DoPeerTruncated == \E n \in Lens, k \in 1..19 : Truncation /\ PeerTruncated(n, k)
 DoPeerWsPack == \E k \in 1..(MaxFrames * 12) : PeerWsPack(k)
 DoPeerWsOther == \E kind \in {"text", "ping", "empty"} : PeerWsOther(kind)
 DoFillStream == \E k \in 1..(Cap + 1) : FillStream(k)
@@ -381,7 +393,7 @@ DoWriteCall  == \E n \in WLens : WriteCall(n)
 DoWriteAccept == \E k \in 1..12 : WriteAccept(k)
 
 Next ==
-  \/ DoPeerSend \/ DoPeerDgram1 \/ DoPeerDgram2 \/ DoPeerWsPack \/ DoPeerWsOther \/ PeerClose
+  \/ DoPeerSend \/ DoPeerTruncated \/ DoPeerDgram1 \/ DoPeerDgram2 \/ DoPeerWsPack \/ DoPeerWsOther \/ PeerClose
   \/ ReadCall \/ TryDecode
   \/ DoFillStream \/ FillUdpBuffered \/ FillUdpDirect \/ FillWs
   \/ FillEof \/ FillErr \/ FillPending \/ FillTimeout
@@ -409,7 +421,7 @@ Expected(i) ==
 
 \* nothing is expected after a frame with an impossible length
 RECURSIVE UpToShort(_, _)
-UpToShort(i, n) == IF i > n THEN n ELSE IF sent[i].cls = "short" THEN i ELSE UpToShort(i + 1, n)
+UpToShort(i, n) == IF i > n THEN n ELSE IF sent[i].cls = "short" THEN i ELSE IF sent[i].cls = "partial" THEN i - 1 ELSE UpToShort(i + 1, n)
 ExpectedSeq == [i \in 1..UpToShort(1, Len(sent)) |-> Expected(i)]
 Observed == SelectSeq(results, LAMBDA r : r.t \notin {"io_err", "timeout", "disconnected"})
 
@@ -420,7 +432,8 @@ InOrder == IsPrefix(Observed, ExpectedSeq)
 \* ws: frames whose last byte has been packed into a message
 RECURSIVE ArrivedUpTo(_, _)
 ArrivedUpTo(i, bytes) == IF i > Len(sent) \/ bytes < sent[i].len THEN i - 1 ELSE ArrivedUpTo(i + 1, bytes - sent[i].len)
-Arrived == IF IsWs THEN ArrivedUpTo(1, packed) ELSE Len(sent)
+Arrived == IF IsWs THEN ArrivedUpTo(1, packed)
+           ELSE IF Len(sent) > 0 /\ sent[Len(sent)].cls = "partial" THEN Len(sent) - 1 ELSE Len(sent)
 
 Quiescent ==
   /\ pc \in {"idle", "closed"} /\ pending = 0
